@@ -11,14 +11,17 @@ using namespace c10;
 
 namespace tol
 {
-// calibrated on the unchanged tree (thorough tier); all in units of eps of the type unless stated
-static const double slerp_unit  = 32;
-static const double slerp_end   = 32;
-static const double slerp_angle = 128;
-static const double slerp_point = 128;
-static const double keys        = 64;
-static const double tangent_double = 1e-6; // relative, h = 2^-17 (design: 1e-6 at h = 1e-5; worst observed see below)
-static const double tangent_float  = 2e-2; // relative, h = 2^-6
+// Calibrated on the unchanged tree (thorough tier: 3e7 float / 2e7 double slerp cases, 2e7 / 1e7 shortest-arc,
+// 1e7 key cases, 4e6 tangent cases); worst = float / double; all in units of eps of the type unless stated,
+// every constant >= 8x the worst.
+static const double slerp_unit  = 16;  // | |s| - 1 | <= C eps                                   worst 1.44 / 1.43
+static const double slerp_end   = 8;   // |s - q_end|_inf <= C eps                               worst 0.84 / 0.83
+static const double slerp_angle = 16;  // |angle4(q1,s) - |t| a| <= C eps / cos(a/2)              worst 1.67 / 1.63
+static const double slerp_point = 16;  // |s - reference|_inf <= C eps / cos(a/2)                worst 1.59 / 1.57
+static const double short_angle = 16;  // slerpShortestArc: angles <= C eps (no conditioning: a <= pi/2)   worst 1.49 / 1.58
+static const double keys        = 8;   // |squad/spline(t=0,1) - key|_inf <= C eps               worst 0.81 / 0.81
+static const double tangent_double = 1e-6; // relative, h = 2^-17 (the design's bound)             worst 3.0e-9
+static const double tangent_float  = 2e-2; // relative, h = 2^-7                                  worst 2.2e-3
 } // namespace tol
 
 template <class T> static inline double E () { return eps_of<T>::value; }
@@ -134,12 +137,15 @@ sub_slerp (Ctx& c, uint64_t idx)
     if (t == T (0)) judge<T> (c, "slerp.endpoint_t0", kSAClass[ac], dist_inf (s, h1) / E<T> (), tol::slerp_end, idx, desc);
     if (t == T (1)) judge<T> (c, "slerp.endpoint_t1", kSAClass[ac], dist_inf (s, h2) / E<T> (), tol::slerp_end, idx, desc);
     H a1 = hangle4 (h1, sh), a2 = hangle4 (sh, h2);
-    judge<T> (c, "slerp.angle_from_q1", kTClass[tc], nan ? NAN : (double) hp::fabs (a1 - hp::fabs (th) * ang) / E<T> (), tol::slerp_angle, idx,
+    // conditioning: the weights divide by sin(a), and |q1 + q2| = 2 cos(a/2) -> 0 towards the excluded q1 = -q2;
+    // 1/cos(a/2) is 1 at a = 0 and 12.7 at a = 0.95 pi
+    const double cond = 1.0 / std::cos (0.5 * (double) ang);
+    judge<T> (c, "slerp.angle_from_q1", kTClass[tc], nan ? NAN : (double) hp::fabs (a1 - hp::fabs (th) * ang) / (E<T> () * cond), tol::slerp_angle, idx,
               [&] { return Obj ().raw ("q1", qjson (q1)).raw ("q2", qjson (q2)).kv ("t", (double) t).kv ("angle4D(q1,q2)", (double) ang).raw ("slerp", qjson (s)).kv ("angle4D(q1,slerp)", (double) a1).kv ("want", (double) (hp::fabs (th) * ang)).str (); });
-    judge<T> (c, "slerp.angle_to_q2", kTClass[tc], nan ? NAN : (double) hp::fabs (a2 - hp::fabs (1 - th) * ang) / E<T> (), tol::slerp_angle, idx,
+    judge<T> (c, "slerp.angle_to_q2", kTClass[tc], nan ? NAN : (double) hp::fabs (a2 - hp::fabs (1 - th) * ang) / (E<T> () * cond), tol::slerp_angle, idx,
               [&] { return Obj ().raw ("q1", qjson (q1)).raw ("q2", qjson (q2)).kv ("t", (double) t).kv ("angle4D(q1,q2)", (double) ang).raw ("slerp", qjson (s)).kv ("angle4D(slerp,q2)", (double) a2).kv ("want", (double) (hp::fabs (1 - th) * ang)).str (); });
     Q4<H> ref = ref_slerp (h1, h2, th);
-    judge<T> (c, "slerp.point", kSAClass[ac], dist_inf (s, ref) / E<T> (), tol::slerp_point, idx, desc);
+    judge<T> (c, "slerp.point", kSAClass[ac], dist_inf (s, ref) / (E<T> () * cond), tol::slerp_point, idx, desc);
     if (idx % 1049 == 0) c.sample (kSAClass[ac], desc);
 }
 static std::vector<std::string>
@@ -153,8 +159,8 @@ slerp_req ()
     return v;
 }
 #define SL_SPACE "q1 from the 10 unit-quaternion classes; q2 at 4-D angle a from q1 in a random direction, a uniform in [0,0.95pi) | 1e-1..1e-12 | just below 0.95pi | 0 | pi/2 +- 1e-k | 0.90pi..0.95pi (pairs that come out at >= 0.95pi after rounding are executed, not judged); t = 0 | 1 | in (0,1) | in [-0.05,0) | in (1,1.05] | 1e-k from an end | 1/2"
-MON_SUB_IDX (sub_slerp<float>, "slerp.float", 1500000, 50000000).req (slerp_req ()).over (SL_SPACE);
-MON_SUB_IDX (sub_slerp<double>, "slerp.double", 800000, 30000000).req (slerp_req ()).over (SL_SPACE);
+MON_SUB_IDX (sub_slerp<float>, "slerp.float", 1500000, 30000000).req (slerp_req ()).over (SL_SPACE);
+MON_SUB_IDX (sub_slerp<double>, "slerp.double", 800000, 20000000).req (slerp_req ()).over (SL_SPACE);
 
 // ------------------------------------------------------------------ slerpShortestArc
 enum
@@ -202,7 +208,7 @@ sub_shortest (Ctx& c, uint64_t idx)
     judge<T> (c, "slerpShortestArc.unit", kShClass[ac], nan ? NAN : (double) hp::fabs (hnorm (sh) - 1) / E<T> (), tol::slerp_unit, idx, desc);
     // never the long way round: the whole short arc lies within pi/2 of q1
     H over = a1 - hp::pi<H> () / 2;
-    judge<T> (c, "slerpShortestArc.long_way_round", kShClass[ac], nan ? NAN : (double) (over > 0 ? over : (H) 0) / E<T> (), tol::slerp_angle, idx, desc);
+    judge<T> (c, "slerpShortestArc.long_way_round", kShClass[ac], nan ? NAN : (double) (over > 0 ? over : (H) 0) / E<T> (), tol::short_angle, idx, desc);
     // it is the slerp towards the nearer of +-q2 (either, when they are equally near up to rounding)
     auto dev = [&] (int sign) {
         Q4<H> g = sign > 0 ? h2 : hneg (h2);
@@ -212,7 +218,7 @@ sub_shortest (Ctx& c, uint64_t idx)
     double d;
     if ((double) hp::fabs (dot) < 64 * E<T> ()) { d = std::min (dev (1), dev (-1)); c.cls ("q2_and_minus_q2_equally_near"); }
     else d = dev (dot < 0 ? -1 : 1);
-    judge<T> (c, "slerpShortestArc.angle", kShClass[ac], nan ? NAN : d / E<T> (), tol::slerp_angle, idx, desc);
+    judge<T> (c, "slerpShortestArc.angle", kShClass[ac], nan ? NAN : d / E<T> (), tol::short_angle, idx, desc);
     if (idx % 1051 == 0) c.sample (kShClass[ac], desc);
 }
 static std::vector<std::string>
@@ -224,8 +230,8 @@ shortest_req ()
     return v;
 }
 #define SH_SPACE "q1 from the 10 unit-quaternion classes; q2 independent | at 4-D angle uniform in [0,pi] | pi/2 +- 1e-k | pi - 1e-k | exactly -q1 | a different basis quaternion (dot exactly 0); t uniform in [0,1] | 0 | 1 | 1/2"
-MON_SUB_IDX (sub_shortest<float>, "slerp_shortest.float", 1000000, 40000000).req (shortest_req ()).over (SH_SPACE);
-MON_SUB_IDX (sub_shortest<double>, "slerp_shortest.double", 600000, 20000000).req (shortest_req ()).over (SH_SPACE);
+MON_SUB_IDX (sub_shortest<float>, "slerp_shortest.float", 1000000, 20000000).req (shortest_req ()).over (SH_SPACE);
+MON_SUB_IDX (sub_shortest<double>, "slerp_shortest.double", 600000, 10000000).req (shortest_req ()).over (SH_SPACE);
 
 // ------------------------------------------------------------------ squad / spline keys
 enum
@@ -311,13 +317,13 @@ keys_req ()
     return v;
 }
 #define KEY_SPACE "first key from the 10 unit-quaternion classes; spline: 4 keys, consecutive keys differ by a rotation of 0.1..0.9 rad | 0.01..2.4 rad | 1e-1..1e-10 rad about random axes, or with a repeated end key; squad: q2 within 0.9pi of q1, inner points within 1 rad (4-D) of their keys, or equal to them; each evaluated at t = 0 and t = 1"
-MON_SUB_IDX (sub_keys<float>, "squad_spline_keys.float", 600000, 20000000).req (keys_req ()).over (KEY_SPACE);
-MON_SUB_IDX (sub_keys<double>, "squad_spline_keys.double", 600000, 20000000).req (keys_req ()).over (KEY_SPACE);
+MON_SUB_IDX (sub_keys<float>, "squad_spline_keys.float", 600000, 10000000).req (keys_req ()).over (KEY_SPACE);
+MON_SUB_IDX (sub_keys<double>, "squad_spline_keys.double", 600000, 10000000).req (keys_req ()).over (KEY_SPACE);
 
 // ------------------------------------------------------------------ tangent continuity of consecutive spline segments
 template <class T> struct TangentCfg;
 template <> struct TangentCfg<double> { static double h () { return 1.0 / 131072; } static double tol () { return tol::tangent_double; } };
-template <> struct TangentCfg<float> { static double h () { return 1.0 / 64; } static double tol () { return tol::tangent_float; } };
+template <> struct TangentCfg<float> { static double h () { return 1.0 / 128; } static double tol () { return tol::tangent_float; } };
 
 enum
 {
@@ -385,6 +391,6 @@ tangent_req ()
     v.insert (v.end (), kTgClass, kTgClass + NTG);
     return v;
 }
-#define TG_SPACE "5 keys: first from the 10 unit-quaternion classes, consecutive keys differ by rotations of 0.1..0.9 rad (random axes | equal angles | one common axis | angles at the ends of the range); segments spline(k0..k3,.) at t = 1, 1-h, 1-2h and spline(k1..k4,.) at t = 0, h, 2h; h = 2^-17 (double), 2^-6 (float)"
-MON_SUB_IDX (sub_tangent<double>, "spline_tangent.double", 200000, 6000000).req (tangent_req ()).over (TG_SPACE);
-MON_SUB_IDX (sub_tangent<float>, "spline_tangent.float", 200000, 6000000).req (tangent_req ()).over (TG_SPACE);
+#define TG_SPACE "5 keys: first from the 10 unit-quaternion classes, consecutive keys differ by rotations of 0.1..0.9 rad (random axes | equal angles | one common axis | angles at the ends of the range); segments spline(k0..k3,.) at t = 1, 1-h, 1-2h and spline(k1..k4,.) at t = 0, h, 2h; h = 2^-17 (double), 2^-7 (float)"
+MON_SUB_IDX (sub_tangent<double>, "spline_tangent.double", 200000, 4000000).req (tangent_req ()).over (TG_SPACE);
+MON_SUB_IDX (sub_tangent<float>, "spline_tangent.float", 200000, 4000000).req (tangent_req ()).over (TG_SPACE);
